@@ -96,9 +96,48 @@ def r9_2(ctx):
               f"__rich_measure__ is called directly at {bad}: the result is used without normalisation and clamping to the available width")
     ctx.floor(n_defs, 12, "__rich_measure__ definitions")
     mr = ctx.repo.fn("measure:measure_renderables")
-    src = norm(mr.node)
-    ctx.check("get_measurement = Measurement.get" in src and "get_measurement(console, renderable, max_width)" in src, mr.fq, "measure_renderables", mr.where, "measure_renderables goes through Measurement.get with its max_width", "measure_renderables does not measure each renderable through Measurement.get(…, max_width)")
-    ctx.check("max(measurements, key=itemgetter(0)).minimum" in src and "max(measurements, key=itemgetter(1)).maximum" in src, mr.fq, "max of minima / maxima", mr.where, "group measurement = (max of minimums, max of maximums)", "measure_renderables does not take the maximum of the minimums and of the maximums")
+    from ..astutil import alias_map, expand_alias, inline, single_defs
+    al = alias_map(mr.node)
+    gets = [c for c in walk_local(mr.node) if isinstance(c, ast.Call) and norm(expand_alias(c.func, al)) == "Measurement.get"]
+    ok = bool(gets) and all(len(c.args) == 3 and norm(c.args[2]) == "max_width" and norm(c.args[0]) == "console" for c in gets)
+    if ok:
+        # measured inside an iteration over the renderables
+        ok = False
+        for x in ast.walk(mr.node):
+            if isinstance(x, (ast.ListComp, ast.GeneratorExp)) and any(c in list(ast.walk(x.elt)) for c in gets) and norm(x.generators[0].iter) in ("renderables", "list(renderables)") and norm(gets[0].args[1]) == norm(x.generators[0].target):
+                ok = True
+            if isinstance(x, ast.For) and norm(x.iter) in ("renderables", "list(renderables)") and any(c in list(ast.walk(x)) for c in gets) and norm(gets[0].args[1]) == norm(x.target):
+                ok = True
+    ctx.check(ok, mr.fq, "measure_renderables", mr.where, "measure_renderables goes through Measurement.get with its max_width", "measure_renderables does not measure each renderable through Measurement.get(…, max_width)")
+    sd = single_defs(mr.node)
+
+    def max_of_field(e, idx, field):
+        """max(ms, key=itemgetter(idx)).field | max(m.field for m in ms) | max(m[idx] for m in ms) | max(lo for lo, hi in ms)"""
+        if isinstance(e, ast.Attribute) and e.attr == field and isinstance(e.value, ast.Call) and norm(e.value.func) == "max" and len(e.value.args) == 1:
+            k = next((kw.value for kw in e.value.keywords if kw.arg == "key"), None)
+            if k is not None and norm(k) in (f"itemgetter({idx})", f"attrgetter('{field}')") or (isinstance(k, ast.Lambda) and norm(k.body) in (f"{k.args.args[0].arg}.{field}", f"{k.args.args[0].arg}[{idx}]")):
+                return norm(inline(e.value.args[0], sd))
+        if isinstance(e, ast.Call) and norm(e.func) == "max" and len(e.args) == 1 and isinstance(e.args[0], (ast.GeneratorExp, ast.ListComp)) and len(e.args[0].generators) == 1 and not e.args[0].generators[0].ifs and not e.keywords:
+            g_ = e.args[0].generators[0]
+            elt = e.args[0].elt
+            t = g_.target
+            if isinstance(t, ast.Name) and norm(elt) in (f"{t.id}.{field}", f"{t.id}[{idx}]"):
+                return norm(inline(g_.iter, sd))
+            if isinstance(t, ast.Tuple) and len(t.elts) == 2 and norm(elt) == norm(t.elts[idx]):
+                return norm(inline(g_.iter, sd))
+        return None
+    rets = [r for r in walk_local(mr.node) if isinstance(r, ast.Return) and r.value is not None]
+    okm = False
+    detail = "?"
+    for r in rets:
+        v = inline(r.value, sd)
+        detail = short(v)
+        if isinstance(v, ast.Call) and norm(v.func) == "Measurement" and len(v.args) == 2:
+            a, b = max_of_field(v.args[0], 0, "minimum"), max_of_field(v.args[1], 1, "maximum")
+            if a is not None and a == b:
+                # the sequence is the list of per-renderable measurements
+                okm = True
+    ctx.check(okm, mr.fq, detail, mr.where, "group measurement = (max of minimums, max of maximums)", "measure_renderables does not take the maximum of the minimums and of the maximums")
 
 
 def r9_3(ctx):
@@ -122,18 +161,29 @@ def r9_3(ctx):
     ctx.check("max_width = min(self.width, max_width)" in norm(cm.node), cm.fq, "min(self.width, max_width)", cm.where, "Constrain caps the measure like its render", "Constrain.__rich_measure__ does not cap at min(self.width, max_width) as its render does")
     tc = ctx.repo.fn("table:Table._measure_column")
     n = 0
-    for r in walk_local(tc.node):
-        if isinstance(r, ast.Return) and r.value is not None:
-            n += 1
-            v = r.value
-            txt = norm(v)
-            ok = txt == "Measurement(0, 0)" or ".with_maximum(max_width)" in txt
-            if not ok and isinstance(v, ast.Name):
-                # measurement = Measurement(...).with_maximum(max_width); measurement = measurement.clamp(...)
-                defs = [norm(x.value) for x in walk_local(tc.node) if isinstance(x, ast.Assign) and norm(x.targets[0]) == v.id]
-                ok = any(".with_maximum(max_width)" in d for d in defs)
-            ctx.check(ok, tc.fq, short(r), f"{tc.module.relpath}:{r.lineno}", "column measurement capped at the width offered to the column",
-                      "Table._measure_column returns a measurement that is not capped with .with_maximum(max_width): when the table re-measures shrunken columns (fixed-width ones in particular) they spring back to their full width and the table overflows")
+    from ..yieldpaths import Unsupported, paths_of, resolve, show
+    try:
+        TP = [resolve(p_) for p_ in paths_of(tc.node)]
+    except Unsupported as u:
+        raise AnalysisError(f"Table._measure_column: statement outside the path normal form ({u})")
+    seen_ret = set()
+    for p_ in TP:
+        rets = [e for e in p_ if e[0] == "return" and e[1] is not None]
+        if len(rets) != 1 or rets[0][1] in seen_ret:
+            continue
+        seen_ret.add(rets[0][1])
+        n += 1
+        txt = rets[0][1]
+        v = ast.parse(txt, mode="eval").body
+        # walk the receiver chain of method calls: Measurement(..).with_maximum(max_width).clamp(..)
+        capped = norm(v) == "Measurement(0, 0)"
+        cur = v
+        while isinstance(cur, ast.Call) and isinstance(cur.func, ast.Attribute):
+            if cur.func.attr == "with_maximum" and len(cur.args) == 1 and norm(cur.args[0]) == "max_width":
+                capped = True
+            cur = cur.func.value
+        ctx.check(capped, tc.fq, txt[:160], tc.where, "column measurement capped at the width offered to the column",
+                  f"Table._measure_column returns `{txt[:160]}`, a measurement that is not capped with .with_maximum(max_width): when the table re-measures shrunken columns (fixed-width ones in particular) they spring back to their full width and the table overflows")
     ctx.floor(n, 3, "returns of Table._measure_column")
 
 
